@@ -141,7 +141,7 @@ def lexer_table(facts):
     for text in ("+", "-", "*", "**", "/", "^", "%", "(", ")", ","):
         dom = c12.LexDomain(ats, facts=facts)
         it = core.Interp(facts, dom, budget=100000)
-        st = dom.setlex({(0, 0): c12.lexer_value(False)}, ord(text[0]), ord(text[1]) if len(text) > 1 else ord(" "))
+        st = dom.setlex({(0, 0): c12.lexer_value(False, facts)}, ord(text[0]), ord(text[1]) if len(text) > 1 else ord(" "))
         kinds = set()
         for o in it.run(body, [Ref(0, 0)], st):
             v = o.value
